@@ -12,7 +12,7 @@
       spyne/interface/_base.py populate_interface (class phase: has_class/add_class name collision;
                                route phase: process_method; fix 1: insert(0, method), fix 2: ValueError
                                for a taken method_id_map key)
-      spyne/protocol/_base.py  get_call_handles, generate_method_contexts
+      spyne/protocol/_base.py  get_call_handles (None -> no handles), generate_method_contexts
       spyne/protocol/xml.py, soap11.py, dictdoc/_base.py, msgpack.py, server/wsgi.py
                                how each protocol derives ctx.method_request_string
       spyne/server/http.py     HttpBase.__init__ (fix 4: the same pattern on two methods is refused;
@@ -443,6 +443,29 @@ Definition dispatch (tns : text) (t : table) (ps : list hpat) (r : request) : ou
   | hs => Invoked (map d_uid hs)
   end.
 
+(** A request that names no method at all leaves ctx.method_request_string at None (a SOAP Fault element
+    sent as the request body: Soap11.decompose_incoming_envelope does not assign it); get_call_handles
+    answers None with the empty list ("if name is None: return []"). *)
+Inductive wire := Named (r : request) | Nameless.
+
+Definition wire_request_string (tns : text) (ps : list hpat) (w : wire) : option text :=
+  match w with
+  | Named r => Some (method_request_string tns ps r)
+  | Nameless => None
+  end.
+
+Definition get_call_handles_opt (tns : text) (t : table) (mrs : option text) : list desc :=
+  match mrs with
+  | None => []
+  | Some m => get_call_handles tns t m
+  end.
+
+Definition dispatch_wire (tns : text) (t : table) (ps : list hpat) (w : wire) : outcome :=
+  match get_call_handles_opt tns t (wire_request_string tns ps w) with
+  | [] => NotFound
+  | hs => Invoked (map d_uid hs)
+  end.
+
 (** ------------------------------------------------------------------ comparison helpers (case files) *)
 Fixpoint zlist_eqb (a b : list Z) : bool :=
   match a, b with
@@ -494,9 +517,9 @@ Definition outcome_eqb (o : outcome) (found : bool) (uids : list Z) : bool :=
   end.
 
 (** requests against a served application: the model agrees with (found?, invoked uids) on each *)
-Definition dispatch_obs_eqb (a : app) (rs : list (request * bool * list Z)) : bool :=
+Definition dispatch_obs_eqb (a : app) (rs : list (wire * bool * list Z)) : bool :=
   match serve a with
-  | Built (t, ps) => forallb (fun q : request * bool * list Z =>
-                       outcome_eqb (dispatch (a_tns a) t ps (fst (fst q))) (snd (fst q)) (snd q)) rs
+  | Built (t, ps) => forallb (fun q : wire * bool * list Z =>
+                       outcome_eqb (dispatch_wire (a_tns a) t ps (fst (fst q))) (snd (fst q)) (snd q)) rs
   | Rejected _ => false
   end.
